@@ -12,6 +12,10 @@ import lentil
 from vlib.ref import ptype_doc
 from vlib.runner import (Skip, Violation, enum, hyp, known_predicate, known_probe, lentil_call)
 
+# the check's own calls are issued with keywords or positionally in the documented order (vlib/callforms.py)
+from vlib import callforms as _cf
+lentil = _cf.proxy(lentil)
+
 RULE = ("programs over the alphabet {x Plane(ptype=p) for the five ptypes, x each documented plane class, "
         "propagate_dft, propagate_fft} from each of the three wavefront types; complete enumeration up to length 3 "
         "(quick) / 4 (thorough) plus drawn programs up to length 30; non-trivial = length >= 2 with at least one "
